@@ -9,6 +9,7 @@
 package c03
 
 import (
+	"crypto/sha1"
 	"fmt"
 	"sort"
 	"strconv"
@@ -182,12 +183,14 @@ func bucket(n int) int {
 
 // recovery result cache of this worker process: image hash -> result
 var recCache = map[string]string{}
+var fullDone = map[string]bool{}
+var dmgCache = map[string]string{}
 var recN int
 
 // recoverImage opens the image with the real code in a fresh controlled world and renders the
 // outcome: "q=<n> ok" when the content equals model state S_q on every observation, the index
 // accepts two more batches and survives a clean close + reopen; otherwise a description.
-func recoverImage(im *drv.Image, override map[string][]byte, drop map[string]bool, conf map[string]interface{}) string {
+func recoverImage(im *drv.Image, override map[string][]byte, drop map[string]bool, conf map[string]interface{}, full bool) string {
 	recN++
 	dir := fmt.Sprintf("/dev/shm/verif-e3-%d/rec%d", pid(), recN)
 	im.Write(dir, override, drop)
@@ -207,6 +210,14 @@ func recoverImage(im *drv.Image, override map[string][]byte, drop map[string]boo
 		if bad := modelAfter(q, 0).Check(idx, ids, keys); len(bad) > 0 {
 			res = fmt.Sprintf("q=%d MISMATCH: %s", q, strings.Join(bad, "; "))
 			idx.Close()
+			return
+		}
+		if !full {
+			if err := idx.Close(); err != nil {
+				res = fmt.Sprintf("q=%d CLOSE-ERROR: %v", q, err)
+			} else {
+				res = fmt.Sprintf("q=%d ok", q)
+			}
 			return
 		}
 		// the recovered index accepts further writes correctly and survives a clean close
@@ -253,7 +264,15 @@ func after(c *drv.Ctx) {
 		key := im.Hash
 		res, seen := recCache[key]
 		if !seen {
-			res = recoverImage(im, nil, nil, k.conf)
+			// the "accepts further writes, closes cleanly, reopens" continuation is run for the first image of
+			// every (crash point, number of zap files, scenario) class; every image is opened and compared
+			fk := fmt.Sprintf("%s|%s|%d", k.name, im.Label, len(im.ZapFiles()))
+			full := !fullDone[fk]
+			res = recoverImage(im, nil, nil, k.conf, full)
+			if full && strings.HasSuffix(res, " ok") {
+				fullDone[fk] = true
+				c.Count("images_with_write_close_reopen_continuation", 1)
+			}
 			recCache[key] = res
 			c.Count("distinct_images_recovered", 1)
 			// damage patterns on files no committed snapshot names
@@ -269,7 +288,13 @@ func after(c *drv.Ctx) {
 			}
 			for _, dmg := range damagePatterns(im, unref) {
 				c.Count("damaged_variants_recovered", 1)
-				dres := recoverImage(im, dmg.override, dmg.drop, k.conf)
+				dk := im.KeyWithout(dmg.touched) + "|" + dmg.key
+				dres, hit := dmgCache[dk]
+				if !hit {
+					dres = recoverImage(im, dmg.override, dmg.drop, k.conf, false)
+					dmgCache[dk] = dres
+					c.Count("damaged_variants_distinct", 1)
+				}
 				if dres != res {
 					c.Fail("damage-unreferenced-file-changes-recovery", "at crash point %s: damaging zap files that no committed snapshot names (%s) changes recovery from %q to %q", im.Label, dmg.desc, res, dres)
 					return
@@ -288,7 +313,6 @@ func after(c *drv.Ctx) {
 		}
 		var q int
 		fmt.Sscanf(res, "q=%d", &q)
-		c.Observe("") // keep vector small; prefixes are counted instead
 		c.Count(fmt.Sprintf("recovered_prefix_q=%d", q), 1)
 		if q < acked {
 			c.Fail("acked-batch-lost", "crash at %s: batches 1..%d were acknowledged, recovered index is at batch %d", im.Label, acked, q)
@@ -305,6 +329,8 @@ type damage struct {
 	override map[string][]byte
 	drop     map[string]bool
 	desc     string
+	touched  map[string]bool // files whose original content no longer matters
+	key      string          // what the damaged files look like now
 }
 
 // damagePatterns: every combination over the unreferenced files of {intact, absent, empty, half,
@@ -314,6 +340,11 @@ func damagePatterns(im *drv.Image, unref []string) []damage {
 	kinds := []string{"intact", "absent", "empty", "half", "garbage"}
 	apply := func(d *damage, rel, kind string) {
 		b := im.Files[rel]
+		if d.touched == nil {
+			d.touched = map[string]bool{}
+		}
+		d.touched[rel] = true
+		d.key += rel + "=" + kind
 		switch kind {
 		case "absent":
 			d.drop[rel] = true
@@ -321,7 +352,10 @@ func damagePatterns(im *drv.Image, unref []string) []damage {
 			d.override[rel] = []byte{}
 		case "half":
 			d.override[rel] = append([]byte{}, b[:len(b)/2]...)
+			hh := sha1.Sum(d.override[rel])
+			d.key += fmt.Sprintf("(%x)", hh[:6])
 		case "garbage":
+			d.key += fmt.Sprintf("(%d)", len(b))
 			g := make([]byte, len(b))
 			for i := range g {
 				g[i] = byte(i*31 + 7)
@@ -390,12 +424,19 @@ func Scenarios() []drv.Scenario {
 	}
 	d0 := []drv.Phase{{Bound: 0}}
 	d1 := []drv.Phase{{Bound: 1}}
+	_ = d1
 	d1r := []drv.Phase{{Bound: 1, Filter: "restricted"}}
 	d2r := []drv.Phase{{Bound: 1}, {Bound: 2, Filter: "restricted"}}
 	return []drv.Scenario{
-		mk(cfg{name: "safe-default", nBatch: 5, window: "workload"}, d1r, d2r),
-		mk(cfg{name: "safe-aggressive-merge", conf: aggressive, nBatch: 5, window: "workload"}, d1r, d2r),
-		mk(cfg{name: "unsafe-2-persister-workers", conf: unsafe2, unsafe: true, nBatch: 5, window: "workload"}, d1r, d2r),
+		// quick: the 3-batch workload with every single deviation of the restricted class, the 5-batch
+		// workload on the default schedule; thorough: the 5-batch workload with every single deviation,
+		// then two deviations of the restricted class
+		mk(cfg{name: "safe-default-3", nBatch: 3, window: "workload"}, d1r, nil),
+		mk(cfg{name: "safe-aggressive-merge-3", conf: aggressive, nBatch: 3, window: "workload"}, d1r, nil),
+		mk(cfg{name: "unsafe-2-persister-workers-3", conf: unsafe2, unsafe: true, nBatch: 3, window: "workload"}, d1r, nil),
+		mk(cfg{name: "safe-default", nBatch: 5, window: "workload"}, d0, d2r),
+		mk(cfg{name: "safe-aggressive-merge", conf: aggressive, nBatch: 5, window: "workload"}, d0, d2r),
+		mk(cfg{name: "unsafe-2-persister-workers", conf: unsafe2, unsafe: true, nBatch: 5, window: "workload"}, d0, d2r),
 		mk(cfg{name: "safe-default-every-step", nBatch: 3, window: "workload", stepImg: true}, d0, d1),
 		mk(cfg{name: "unsafe-creation-window", conf: unsafeOnly, unsafe: true, window: "creation"}, d0, d1),
 		mk(cfg{name: "safe-creation-window", window: "creation"}, d0, d1),
